@@ -128,6 +128,11 @@ const maxLeadingBoxes = 8
 func readUntil(bmr *isobmff.Reader, calls int, done func() bool) error {
 	for i := 0; i < calls; i++ {
 		if err := bmr.ReadMetadata(); err != nil {
+			if done() {
+				// the metadata has been delivered: the file merely holds
+				// fewer boxes behind it than cameras write
+				return nil
+			}
 			return err
 		}
 	}
